@@ -9,6 +9,7 @@ loaded modules, the caller-supplied environment).  The snapshots are
 cross-checked against whole-history replay on fresh interpreters.
 """
 import itertools
+import json
 import os
 import time
 
@@ -50,6 +51,10 @@ CMDS = {
     "req_syn": "require Syn",
     "req_cyc": "require CycA",
     "loop_err": "for i in [1, 2, 3] do if i == 2 then error 'x'; end",
+    "say": "println('hi'); 1",
+    "env2_read": ("E2", "[do limit catch all 'nol' end, "
+                        "do a catch all 'noa' end, do w catch all 'now' end]"),
+    "env2_fail": ("E2", "def w = 3; error 'boom'"),
     "env_def": ("E", "def z = 7; z"),
     "env_read": ("E", "[do z catch all 'noz' end, do a catch all 'noa' end, "
                       "do nope catch all 'nn' end]"),
@@ -82,11 +87,15 @@ class State:
                     os.path.join(core.SCRATCH_HOME, "modpath")))
                 s.interp.base_environment.put("checkerlang_module_path", lst)
             s.E = core.ckl.functions.get_none_environment()
+            # a nested caller-supplied scope: outer holds a definition
+            s.outer = core.ckl.functions.get_none_environment()
+            s.interp.interpret("def limit = 5", "setup", s.outer)
+            s.inner = s.outer.newEnv()
             self.sessions[who] = s
 
 
 NOISE = ["def_a", "def_f", "inc_a", "req_good", "bump", "bump", "req_as",
-         "env_def", "partial", "req_uses"]
+         "env_def", "partial", "req_uses", "say", "env2_fail"]
 
 
 def make_noise(config):
@@ -129,21 +138,32 @@ class Sessions(e4.Explorer):
         who, name = cmd
         s = state.sessions[who]
         spec = CMDS[name]
+        before = {w: len(x.out.getvalue())
+                  for w, x in state.sessions.items()}
         core.set_fuel(100000, 100000)
         try:
             if isinstance(spec, tuple):
+                env = s.E if spec[0] == "E" else s.inner
                 o = core.outcome_of(lambda: s.interp.interpret(
-                    spec[1], "session", s.E))
+                    spec[1], "session", env))
             else:
                 o = core.outcome_of(lambda: s.interp.interpret(
                     spec, "session"))
         finally:
             core.set_fuel(10 ** 12, 10 ** 12)
+        # text that arrived on each interpreter's own output stream
+        outs = sorted((w, x.out.getvalue()[before[w]:])
+                      for w, x in state.sessions.items()
+                      if len(x.out.getvalue()) != before[w])
         if o[0] == "value":
-            return ["value", o[2]]
-        if o[0] == "syn":
-            return ["syn"]
-        return list(o)
+            r = ["value", o[2]]
+        elif o[0] == "syn":
+            r = ["syn"]
+        else:
+            r = list(o)
+        if outs:
+            r.append({"output": outs})
+        return r
 
     def model_step(self, model, cmd):
         who, name = cmd
@@ -211,6 +231,15 @@ class Sessions(e4.Explorer):
             exp = ERR
         elif name == "loop_err":
             exp = ["rt", "'x'"]
+        elif name == "say":
+            exp = ["value", "1", {"output": [[who, "hi\n"]]}]
+        elif name == "env2_read":
+            exp = ["value", "[5, " + (str(s["a"]) if s["a"] is not None
+                                      else "'noa'") + ", " +
+                   ("3" if s.get("w") else "'now'") + "]"]
+        elif name == "env2_fail":
+            s["w"] = True
+            exp = ["rt", "'boom'"]
         elif name == "env_def":
             s["z"] = True
             exp = ["value", "7"]
@@ -226,6 +255,11 @@ class Sessions(e4.Explorer):
         ok = obs[0] == expected[0] and (
             len(expected) < 2 or expected[1] is None
             or (len(obs) > 1 and obs[1] == expected[1]))
+        # output must arrive on the issuing interpreter's stream only
+        eo = [x for x in expected if isinstance(x, dict)]
+        oo = [x for x in obs if isinstance(x, dict)]
+        if ok and json.loads(json.dumps(eo)) != json.loads(json.dumps(oo)):
+            ok = False
         agg.cls((cmd[1], obs[0]))
         if not ok:
             agg.violation(
@@ -283,6 +317,9 @@ def replay(case, verbose=False):
     for cmd, exp, obs in out:
         ok = obs[0] == exp[0] and (len(exp) < 2 or exp[1] is None or
                                    (len(obs) > 1 and obs[1] == exp[1]))
+        eo = [x for x in exp if isinstance(x, dict)]
+        oo = [x for x in obs if isinstance(x, dict)]
+        ok = ok and json.loads(json.dumps(eo)) == json.loads(json.dumps(oo))
         if verbose:
             print(cmd, CMDS[cmd[1]], "expected", exp, "observed", obs,
                   "" if ok else "  <-- MISMATCH")
@@ -295,13 +332,14 @@ def main(tier, seed):
     agg = core.Agg()
     core_cmds = ["def_a", "inc_a", "read_a", "def_f", "call_f", "partial",
                  "read_bc", "req_good", "bump", "req_broken", "req_cyc",
-                 "env_def", "env_read", "req_as", "call_g", "loop_fn"]
+                 "env_def", "env_read", "req_as", "call_g", "loop_fn", "say",
+                 "env2_read", "env2_fail"]
     two = ["def_a", "inc_a", "read_a", "partial", "read_bc", "req_good",
-           "bump", "req_missing", "env_def", "env_read"]
+           "bump", "req_missing", "env_def", "env_read", "say"]
     if tier == "quick":
         plan1 = [(ORDER, 3), (["def_a", "read_a", "partial", "call_g",
-                               "read_bc", "req_good", "bump", "req_broken",
-                               "req_as", "env_read"], 4)]
+                               "req_good", "bump", "req_broken",
+                               "req_as", "env2_read", "env2_fail"], 4)]
         plan2 = [(two, 3)]
     else:
         plan1 = [(ORDER, 4), (core_cmds, 5)]
